@@ -13,7 +13,7 @@ META = {
 }
 
 HEADER = """From Coq Require Import String Ascii List Bool Arith NArith.
-From SV Require Import C09.Syntax C09.Model C09.Spec.
+From SV Require Import C09.Syntax C09.Model C09.Spec C09.Bindings.
 Import ListNotations.
 Open Scope string_scope.
 Inductive arg1 := A1Pos (n : N) (e : expr) | A1Named (n : N) (x : string) (e : expr) | A1Star (n : N) (e : expr) | A1SS (n : N) (e : expr).
@@ -42,17 +42,23 @@ Definition O (b : nat) : options :=
 Definition err_eqb (a b : rule * N) : bool := rule_eqb (fst a) (fst b) && N.eqb (snd a) (snd b).
 Fixpoint list_eqb {X} (f : X -> X -> bool) (a b : list X) : bool :=
   match a, b with [], [] => true | x :: r, y :: s => f x y && list_eqb f r s | _, _ => false end.
-Definition case := (program * list (nat * list (rule * N)))%type.
+Definition case := (program * list (nat * list (rule * N)) * list (bool * bool * list (N * N)))%type.
+Definition OB (gr lbg : bool) : options :=
+  {| o_set := true; o_while := true; o_toplevel_control := true; o_global_reassign := gr; o_load_binds_globally := lbg; o_recursion := false |}.
 Open Scope N_scope.
 """
 
 CHECKS = """
 (* correspondence: the model reports the resolver's error list, in order, under every option vector tried *)
 Definition model_ok (c : case) : bool :=
-  forallb (fun r => list_eqb err_eqb (resolve (O (fst r)) W (fst c)) (snd r)) (snd c).
+  let '(p, runs, bs) := c in forallb (fun r => list_eqb err_eqb (resolve (O (fst r)) W p) (snd r)) runs.
 (* oracle: what the resolver reported is what the specification calls a violation (both directions) *)
 Definition spec_ok (c : case) : bool :=
-  forallb (fun r => spec_agrees (O (fst r)) W (fst c) (snd r)) (snd c).
+  let '(p, runs, bs) := c in forallb (fun r => spec_agrees (O (fst r)) W p (snd r)) runs.
+(* oracle: every identifier use is bound (local/free/global/predeclared/universal/undefined) as the scoping rules say *)
+Definition bind_ok (c : case) : bool :=
+  let '(p, runs, bs) := c in
+  forallb (fun b => let '(gr, lbg, obs) := b in bindings_agree (OB gr lbg) W p obs) bs.
 """
 
 
@@ -169,6 +175,8 @@ def run_resolve(ctx):
             cls = "accepted" if "accepted, but" in pb else "rejected-valid" if "breaks no rule" in pb else "effects" if "effects" in pb and "rejected program" in pb else "panic" if "panic" in pb else "wrong-error"
             if "legacy ExecFile" in pb:
                 cls += ":legacy-entry-point"
+            if "scoping rules give" in pb or "must fail at run time" in pb:
+                cls = "wrong-binding"
             if pb.startswith("loader entry point"):
                 cls = "loader-entry-point:" + ("accepted" if "module accepted" in pb else "rejected")
             ctx.finding("resolve:%s:%s:%s" % (p["plant"], p["where"] or "expr", cls),
@@ -182,12 +190,21 @@ def run_resolve(ctx):
             continue
         runs = clist(["(%d%%nat, %s)" % (r["opts"], clist(["(%s, %d)" % (e["rule"], e["pos"]) for e in r["errs"]]))
                       for r in p["runs"] if not r.get("other") and all(not e["rule"].startswith("other:") for e in r["errs"])])
-        terms.append("(%s, %s)" % (c_stmts(p["tree"]), runs))
+        bsets = clist(["(%s, %s, %s)" % (cbool(b["gr"]), cbool(b["lbg"]), clist(["(%d, %d)" % (x[0], x[1]) for x in b["binds"]]))
+                       for b in p.get("bindsets") or []])
+        terms.append("(%s, %s, %s)" % (c_stmts(p["tree"]), runs, bsets))
         refs.append(p)
-    return ("R", header, terms, ["model_ok", "spec_ok"]), lambda bad: resolve_finish(ctx, summary, terms, refs, bad[0], bad[1])
+    return ("R", header, terms, ["model_ok", "spec_ok", "bind_ok"]), lambda bad: resolve_finish(ctx, summary, terms, refs, bad[0], bad[1], bad[2])
 
 
-def resolve_finish(ctx, summary, terms, refs, bad_model, bad_spec):
+def resolve_finish(ctx, summary, terms, refs, bad_model, bad_spec, bad_bind):
+    for i in bad_bind:
+        p = refs[i]
+        if p["problems"]:
+            continue
+        ctx.finding("resolve-bindings:%s:%s" % (p["plant"], p["where"] or "expr"),
+                    "the resolver binds some identifier use differently from the scoping rules (local/free/global/predeclared/universal/undefined) under GlobalReassign x LoadBindsGlobally; bindings recorded by the resolver: %s\n%s" % (
+                        json.dumps(p.get("bindsets"))[:600], p["src"]), p)
     for i in bad_spec:
         p = refs[i]
         if p["problems"]:
@@ -204,9 +221,9 @@ def resolve_finish(ctx, summary, terms, refs, bad_model, bad_spec):
     return {
         "evaluations": summary["runs"], "distinct_nontrivial": summary["runs"],
         "programs": summary["programs"], "option_vectors": summary["vectors"], "plants": summary["plants"],
-        "rule": "programs from a grammar (defs with all parameter kinds, nested defs, lambdas with defaults, comprehensions with several clauses, if/for/break/continue, calls with positional/named/*/** arguments, loads) valid under every option vector; in 7 of 8 programs one construct is planted (125 kinds: every rule of the resolver, at top level / in a function / in a loop / in an if / in a nested def / in a def inside a loop, or wrapped in random expression contexts), plus 7 context-sensitive constructs (load, break, continue, return, if, for, while) x 30 branch positions (if-true, elif, final else after one or two elifs, for body, while body, nestings of these, after a compound statement; at top level and in a function) with the exact expected error list, x option vectors (quick: all-off, all-on and 4 seeded; thorough: all 64), and x all 16 combinations of the legacy flags resolve.AllowSet/AllowGlobalReassign/AllowRecursion/LoadBindsGlobally through the legacy entry point starlark.ExecFile, compared with the rules under the documented mapping of LegacyFileOptions; and as a module reached through load() via the loader of repl.MakeLoadOptions(opts) with the legacy flags set to the complement of opts (must behave as under ExecFileOptions(opts)). The misplaced positional argument of the argument-order plants ranges over 18 expression forms (literal, identifier, unary -, +, ~, not, parenthesised, binary, list, dict, call, lambda, conditional, comprehension, index, attribute, tuple, string). Each run goes through the real ExecFileOptions pipeline with logging built-ins and a logging loader.",
+        "rule": "programs from a grammar (defs with all parameter kinds, nested defs, lambdas with defaults, comprehensions with several clauses, if/for/break/continue, calls with positional/named/*/** arguments, loads) valid under every option vector; in 7 of 8 programs one construct is planted (125 kinds: every rule of the resolver, at top level / in a function / in a loop / in an if / in a nested def / in a def inside a loop, or wrapped in random expression contexts), plus 7 context-sensitive constructs (load, break, continue, return, if, for, while) x 30 branch positions (if-true, elif, final else after one or two elifs, for body, while body, nestings of these, after a compound statement; at top level and in a function) with the exact expected error list, x option vectors (quick: all-off, all-on and 4 seeded; thorough: all 64), and x all 16 combinations of the legacy flags resolve.AllowSet/AllowGlobalReassign/AllowRecursion/LoadBindsGlobally through the legacy entry point starlark.ExecFile, compared with the rules under the documented mapping of LegacyFileOptions; and as a module reached through load() via the loader of repl.MakeLoadOptions(opts) with the legacy flags set to the complement of opts (must behave as under ExecFileOptions(opts)). Eight use/bind/use-again programs (a universal, a predeclared and an undeclared name used at top level and in a function, then bound as a global once or twice, then used again) with the VALUES of the uses as a direct oracle. For the programs sent to Coq the resolver's binding decision of every identifier (syntax.Ident.Binding: local or cell, free, global, predeclared, universal, undefined) under GlobalReassign x LoadBindsGlobally is dumped and compared with the scoping oracle C09.Bindings. The misplaced positional argument of the argument-order plants ranges over 18 expression forms (literal, identifier, unary -, +, ~, not, parenthesised, binary, list, dict, call, lambda, conditional, comprehension, index, attribute, tuple, string). Each run goes through the real ExecFileOptions pipeline with logging built-ins and a logging loader.",
         "distribution": summary["dist"], "coq_programs": len(terms),
-        "model_mismatches": len(bad_model), "spec_mismatches": len(bad_spec),
+        "model_mismatches": len(bad_model), "spec_mismatches": len(bad_spec), "binding_mismatches": len(bad_bind),
         "expectation_mismatches": summary["problem_programs"],
         "samples": [{"plant": p["plant"], "where": p["where"], "marker": p["marker"], "src": p["src"][:400],
                      "runs": [(optstr(r["opts"]), r["errs"], r["accepted"]) for r in p["runs"][:3]]} for p in refs[:3]],
